@@ -32,11 +32,11 @@ where
     pub fn with_capacity(nodes: usize, edges: usize) -> (g: Self)
         /*+*/ensures g.wf(), g.view().nodes.len() == 0, g.view().edges.len() == 0/*-*/,   // [with_capacity_empty]
     {
-        /*+*/let g =/*-*/ Graph {
+        /*+*/let g = {/*-*/ Graph {
             nodes: Vec::with_capacity(nodes),
             edges: Vec::with_capacity(edges),
             ty: PhantomData,
-        }/*+*/; proof { assert(g.wf_with(Seq::empty(), Seq::empty())); g.lemma_wf_unique(Seq::empty(), Seq::empty()); } g/*-*/
+        } /*+*/}; proof { assert(g.wf_with(Seq::empty(), Seq::empty())); g.lemma_wf_unique(Seq::empty(), Seq::empty()); } g/*-*/
     }
 //@ end
 
@@ -661,7 +661,7 @@ where
             lemma_cur_lists(ns1, es1, 1, inn.update(a1, inn[a1].remove(q1)), ei);
         }
         let ghost mid = *self;
-        let r =/*-*/ self.remove_edge_adjust_indices(e)/*+*/;
+        let r = {/*-*/ self.remove_edge_adjust_indices(e) /*+*/};
         proof {
             let o1 = out.update(a0, out[a0].remove(q0)); let i1 = inn.update(a1, inn[a1].remove(q1));
             assert(self.outs() == renamed_lists(mid.edges@, 0, o1, ei));
